@@ -7,7 +7,7 @@ from vlib.core import Case
 PROP = "C07"
 SPEC_MODE = "spec"
 KEEP_PREFIX = 1          # the first `clock` creates the case's time base
-SIZES = {"quick": 3000, "thorough": 60000}
+SIZES = {"quick": 12000, "thorough": 300000}
 BATCH = 3000
 RULE = ("op sequences: first `clock T0` (T0 = 1.9e12 + offsets on/around bucket and cycle boundaries), 0-5 system rules over the five "
         "metric types x strategies {-1,1,0,2} with boundary triggers (integers the aggregates can reach, +-0.5, 0, +Inf, a slice of "
@@ -195,7 +195,8 @@ def measure(ctx, eng):
         if not l.startswith("entry ") or " ; viol=" not in l:
             continue
         op, _, r = l.partition(" => ")
-        res, viol, bbr, conc = [x.strip() for x in r.split(";")]
+        res, viol, bbr, conc, fx = [x.strip() for x in r.split(";")]
+        d["capacity comparison: binary64 vs exact rational " + fx[3:]] += 1
         ms = sorted(set(viol[5:].split(","))) if viol[5:] else []
         d["inbound decisions"] += 1
         d["violated metric types: " + ("none" if not ms else "+".join(ms))] += 1
@@ -208,8 +209,19 @@ def measure(ctx, eng):
 
 
 def run(ctx):
+    import os
     import sys
-    from vlib import std
+    from vlib import core, std
+    # DESIGN 2.6: which recorded findings still reproduce decides which variant of the model fragment the driver
+    # runs (as-is while the finding is present, repaired once the tree under test no longer shows it)
+    os.environ.pop("VERIF_C07_REPAIRED", None)
+    binary, _ = core.build_harness()
+    if binary is not None:
+        p = os.path.join(core.ROOT, "replays", "known", "C07-nan-trigger.ops")
+        impl, _ = core.run_impl(binary, PROP, open(p).read())
+        if impl is not None and any(l.startswith("entry ") and l.endswith("=> pass") for l in impl):
+            os.environ["VERIF_C07_REPAIRED"] = "nan-trigger"
+            ctx.cov["repaired_findings"] = ["nan-trigger"]
     return std.run(ctx, sys.modules[__name__], extra=measure)
 
 
